@@ -693,27 +693,178 @@ fn base_scn(routing: Routing, workers: usize) -> FScn {
     FScn { routing, rl: None, prioq: false, nd_keys: vec![], workers, limit: None, chash: [7, 12, 5], hook_yield: false, clients: vec![], horizon_ms: 250 }
 }
 
-pub fn factory_micro() -> Vec<FScn> {
+fn subs(id: i64, key: u64, beh: Beh, sleep_ms: u64) -> COp {
+    COp::Submit { id, key, ttl: None, port: false, beh, yields: 0, sleep_ms }
+}
+
+/// Hand-written micro-scenarios explored by bounded DFS over poll orders
+pub fn factory_micro(which: &str) -> Vec<FScn> {
     let mut v = vec![];
-    // plain flow
-    let mut s = base_scn(Routing::Queuer, 2);
-    s.clients = vec![vec![sub(1, 1), sub(2, 2), sub(3, 1)]];
-    v.push(s);
+    let all = which == "all";
+    if all || which == "plain" {
+        let mut s = base_scn(Routing::Queuer, 2);
+        s.clients = vec![vec![sub(1, 1), sub(2, 2), sub(3, 1)]];
+        v.push(s);
+    }
+    if all || which == "stale" {
+        // DESIGN §6 item 2: completion reported, then the worker kills itself; a second job of the key is
+        // queued behind it and a third arrives while the second runs on the replacement
+        for r in [Routing::Sticky, Routing::KeyP] {
+            let mut s = base_scn(r, 2);
+            s.clients = vec![vec![subb(1, 1, Beh::KillAfter), subs(2, 1, Beh::Ok, 60), COp::Sleep(20), sub(3, 1), COp::Sleep(10), COp::Adjust(3), sub(4, 1)]];
+            v.push(s);
+        }
+    }
+    if all || which == "drainrepl" {
+        // DESIGN §6 item 3: a draining slot's worker dies
+        let mut s = base_scn(Routing::Queuer, 2);
+        s.clients = vec![vec![subs(1, 1, Beh::Ok, 40), subs(2, 2, Beh::Panic, 20)], vec![COp::Sleep(5), COp::Adjust(1)]];
+        v.push(s);
+    }
+    let job = |id: i64, key: u64, beh: Beh, sleep_ms: u64, port: bool, ttl: Option<u64>| COp::Submit { id, key, ttl, port, beh, yields: 0, sleep_ms };
+    if all || which == "deaths" {
+        for r in [Routing::Queuer, Routing::Sticky, Routing::KeyP, Routing::RoundRobin] {
+            let mut s = base_scn(r, 2);
+            s.clients = vec![vec![subb(1, 1, Beh::Panic), sub(2, 2), subb(3, 1, Beh::Err), subb(4, 3, Beh::KillMid), sub(5, 2), subb(6, 2, Beh::KillAfter), sub(7, 1)]];
+            v.push(s);
+        }
+        // an idle worker killed from outside, then work arrives
+        let mut s = base_scn(Routing::Queuer, 2);
+        s.clients = vec![vec![COp::KillWorker(0), sub(1, 1), sub(2, 2), sub(3, 3)], vec![COp::Pause, COp::KillWorker(1)]];
+        v.push(s);
+    }
+    if all || which == "resize" {
+        for r in [Routing::Queuer, Routing::Sticky, Routing::KeyP, Routing::RoundRobin, Routing::Custom] {
+            let mut s = base_scn(r, 2);
+            s.clients = vec![
+                vec![subs(1, 1, Beh::Ok, 30), subs(2, 2, Beh::Ok, 10), sub(3, 3), sub(4, 1), COp::Sleep(40), sub(5, 2), sub(6, 3)],
+                vec![COp::Adjust(3), COp::Sleep(5), COp::Adjust(1), COp::Sleep(20), COp::Adjust(0), COp::Adjust(2)],
+            ];
+            v.push(s);
+        }
+    }
+    if all || which == "drain" {
+        for r in [Routing::Sticky, Routing::KeyP] {
+            let mut s = base_scn(r, 2);
+            s.hook_yield = true;
+            s.clients = vec![
+                vec![job(1, 1, Beh::Ok, 20, true, None), job(2, 1, Beh::Ok, 0, true, None), job(3, 2, Beh::Ok, 10, false, None), COp::Sleep(5), job(4, 2, Beh::Ok, 0, true, None), job(5, 3, Beh::Ok, 0, false, None)],
+                vec![COp::Pause, COp::Drain, job(6, 1, Beh::Ok, 0, true, None)],
+            ];
+            v.push(s);
+        }
+    }
+    if all || which == "discard" {
+        for (r, newest) in [(Routing::Queuer, true), (Routing::Queuer, false), (Routing::KeyP, true), (Routing::KeyP, false), (Routing::RoundRobin, false)] {
+            let mut s = base_scn(r, 1);
+            s.limit = Some((1, newest));
+            s.clients = vec![vec![job(1, 1, Beh::Ok, 20, true, None), job(2, 1, Beh::Ok, 0, true, None), job(3, 2, Beh::Ok, 0, true, None), job(4, 1, Beh::Ok, 0, false, None),
+                                  COp::Update { limit: Some((0, newest)), wc: None }, job(5, 2, Beh::Ok, 0, true, None), job(6, 3, Beh::Ok, 0, true, None)]];
+            v.push(s);
+        }
+    }
+    if all || which == "ttl" {
+        for r in [Routing::Queuer, Routing::KeyP] {
+            let mut s = base_scn(r, 1);
+            s.horizon_ms = 320;
+            s.clients = vec![vec![job(1, 1, Beh::Ok, 150, false, None), job(2, 1, Beh::Ok, 0, true, Some(20)), job(3, 2, Beh::Ok, 0, false, Some(500)), COp::Sleep(30), job(4, 1, Beh::Ok, 0, true, Some(10)),
+                                  COp::Sleep(130), job(5, 2, Beh::Ok, 0, false, Some(0))]];
+            v.push(s);
+        }
+    }
+    if all || which == "ratelim" {
+        for r in [Routing::Queuer, Routing::KeyP] {
+            let mut s = base_scn(r, 2);
+            s.rl = Some((1, 50, 2, 1));
+            s.clients = vec![vec![job(1, 1, Beh::Ok, 10, true, None), job(2, 2, Beh::Ok, 10, true, None), job(3, 1, Beh::Ok, 0, false, None), COp::Sleep(60), job(4, 2, Beh::Ok, 70, false, None),
+                                  job(5, 1, Beh::Ok, 70, false, None), job(6, 3, Beh::Ok, 0, true, None), COp::Sleep(100), job(7, 3, Beh::Ok, 0, true, None)]];
+            v.push(s);
+        }
+    }
+    if all || which == "prio" {
+        for newest in [true, false] {
+            let mut s = base_scn(Routing::Queuer, 1);
+            s.prioq = true;
+            s.nd_keys = vec![1];
+            s.limit = Some((2, newest));
+            s.clients = vec![vec![job(1, 2, Beh::Ok, 30, false, None), job(2, 3, Beh::Ok, 0, true, None), job(3, 2, Beh::Ok, 0, true, None), job(4, 1, Beh::Ok, 0, true, None), job(5, 3, Beh::Ok, 0, true, None),
+                                  job(6, 1, Beh::Ok, 0, true, None), job(7, 2, Beh::Ok, 0, false, None)]];
+            v.push(s);
+        }
+    }
     v
 }
 
-pub fn factory_batch(out: &str, tier: &str, seed: u64) -> Value {
+pub fn rand_scn(rng: &mut Rng) -> FScn {
+    let routing = [Routing::Queuer, Routing::Sticky, Routing::KeyP, Routing::RoundRobin, Routing::Custom][rng.below(5)];
+    let fq = matches!(routing, Routing::Queuer | Routing::Sticky);
+    let mut s = base_scn(routing, 1 + rng.below(3));
+    if rng.chance(1, 4) {
+        s.rl = Some((1 + rng.below(2), [20u64, 40, 60][rng.below(3)], 1 + rng.below(3), rng.below(3)));
+    }
+    if fq && rng.chance(1, 4) {
+        s.prioq = true;
+        if rng.chance(1, 2) {
+            s.nd_keys = vec![KEYS[rng.below(3)]];
+        }
+    }
+    if rng.chance(1, 2) {
+        s.limit = Some((rng.below(3), rng.chance(1, 2)));
+    }
+    s.chash = [rng.next() % 1000, rng.next(), rng.next() % 7];
+    s.hook_yield = rng.chance(1, 2);
+    s.horizon_ms = 350;
+    let nkeys = 1 + rng.below(3);
+    let njobs = 3 + rng.below(6);
+    let mut c0 = vec![];
+    for id in 1..=njobs as i64 {
+        let beh = match rng.below(20) {
+            0 | 1 => Beh::Panic,
+            2 => Beh::Err,
+            3 | 4 => Beh::KillAfter,
+            5 => Beh::KillMid,
+            _ => Beh::Ok,
+        };
+        let ttl = if rng.chance(1, 5) { Some([0u64, 5, 20, 200][rng.below(4)]) } else { None };
+        c0.push(COp::Submit { id, key: KEYS[rng.below(nkeys)], ttl, port: rng.chance(2, 5), beh, yields: rng.below(3) as u8, sleep_ms: [0u64, 0, 5, 10, 30][rng.below(5)] });
+        match rng.below(6) {
+            0 => c0.push(COp::Sleep([1u64, 5, 10, 25][rng.below(4)])),
+            1 => c0.push(COp::Pause),
+            _ => {}
+        }
+    }
+    let mut c1 = vec![];
+    for _ in 0..rng.below(4) {
+        c1.push(match rng.below(8) {
+            0 | 1 | 2 => COp::Adjust(rng.below(MAXW + 1)),
+            3 => COp::Update { limit: Some((rng.below(3), rng.chance(1, 2))), wc: None },
+            4 => COp::Update { limit: if rng.chance(1, 2) { Some((rng.below(2), rng.chance(1, 2))) } else { None }, wc: Some(1 + rng.below(MAXW)) },
+            5 => COp::KillWorker(rng.below(3)),
+            6 => COp::Drain,
+            _ => COp::Sleep([1u64, 5, 15, 40][rng.below(4)]),
+        });
+        if rng.chance(1, 2) {
+            c1.push(COp::Sleep([1u64, 5, 15][rng.below(3)]));
+        }
+    }
+    s.clients = vec![c0, c1];
+    s
+}
+
+pub fn factory_batch(out: &str, tier: &str, seed: u64, which: &str) -> Value {
     let mut b = Batch::new(Some(out));
-    let (dfs_cap, _nrand) = if tier == "thorough" { (2000usize, 4000usize) } else { (150usize, 400usize) };
+    let (dfs_cap, nrand, per) = if tier == "thorough" { (400usize, 3000usize, 3usize) } else { (40usize, 350usize, 2usize) };
     let mut nontrivial = std::collections::HashSet::new();
     let mut bad_runs = 0u64;
-    for sc in factory_micro() {
+    let mut by_routing: HashMap<&'static str, u64> = HashMap::new();
+    for sc in factory_micro(which) {
         let mut ex = Explorer::new(Mode::Dfs { preempt_bound: Some(2) }, seed);
         let mut n = 0;
         loop {
             ex.begin_run();
             let (evs, meta, bad) = factory_run(&sc, &mut ex);
             let h = b.run(meta, &evs);
+            *by_routing.entry(sc.routing.name()).or_insert(0) += 1;
             if ex.nontrivial {
                 nontrivial.insert(h);
             }
@@ -726,8 +877,27 @@ pub fn factory_batch(out: &str, tier: &str, seed: u64) -> Value {
             }
         }
     }
+    if which == "all" || which == "random" {
+        let mut rng = Rng(seed ^ 0x66616374);
+        for _ in 0..nrand {
+            let sc = rand_scn(&mut rng);
+            let mut ex = Explorer::new(Mode::Random, rng.next());
+            for _ in 0..per {
+                ex.begin_run();
+                let (evs, meta, bad) = factory_run(&sc, &mut ex);
+                let h = b.run(meta, &evs);
+                *by_routing.entry(sc.routing.name()).or_insert(0) += 1;
+                if ex.nontrivial {
+                    nontrivial.insert(h);
+                }
+                if bad {
+                    bad_runs += 1;
+                }
+            }
+        }
+    }
     b.finish();
-    json!({"family": "factory", "runs": b.runs, "events": b.events, "distinct": b.hashes.len(),
+    json!({"family": "factory", "runs": b.runs, "events": b.events, "distinct": b.hashes.len(), "by_routing": by_routing,
            "distinct_nontrivial": nontrivial.len(), "bad_runs": bad_runs, "samples": b.samples})
 }
 
@@ -735,7 +905,7 @@ pub fn dispatch(cmd: &str, a: &std::collections::HashMap<String, String>) -> Opt
     let (out, tier, seed) = crate::common(a);
     match cmd {
         "leaky" => Some(leaky_batch(&out, &tier, seed)),
-        "factory" => Some(factory_batch(&out, &tier, seed)),
+        "factory" => Some(factory_batch(&out, &tier, seed, a.get("which").map(|s| s.as_str()).unwrap_or("all"))),
         _ => None,
     }
 }
